@@ -72,6 +72,8 @@ def _exec_plain(scn, order_prefix):
             return idx
 
         r = CrawlRun(cs.site_desc(scn), cs.argv(scn, db, d), concurrency=scn['N'], db_path=db, chooser=chooser, cwd=d)
+        r.split_answers = bool(scn.get('split'))
+        r.max_requests = max(400, 3 * len(scn['urls']))
         ev = r.execute()
         rows = read_rows(db, r)
         return dict(ev=ev, rows=rows, choices=choices, outcome=r.outcome)
@@ -102,6 +104,16 @@ def _exec_crash(scn, crash_at):
         if not crashed:
             return dict(ev=ev1, rows=[], crashed=False, outcome='nocrash')
         r2 = CrawlRun(cs.site_desc(scn), cs.argv(scn, db, d), concurrency=scn['N'], db_path=db, run_no=2, cwd=d)
+        # what the database holds after the kill (the last commit may not have had its event logged)
+        n = len(scn['urls'])
+        sync = {'e': 'dbsync', 'st': ['none'] * n, 'tr': [0] * n, 'lv': [0] * n}
+        try:
+            for row in read_rows(db, r2):
+                if 1 <= row[0] <= n:
+                    sync['st'][row[0] - 1], sync['tr'][row[0] - 1], sync['lv'][row[0] - 1] = row[1], row[2], row[3]
+        except Exception:
+            pass    # no table yet
+        ev1.append(sync)
         ev2 = r2.execute()
         rows = read_rows(db, r2)
         return dict(ev=ev1 + ev2, rows=rows, crashed=True, outcome=r2.outcome)
@@ -281,14 +293,14 @@ def strict_eligible(scn):
     if scn['start'] != [1] or o['spanhosts'] or not o['strong'] or not o['recursive'] or o['pagereq'] or o['auth']:
         return False
     hs = cs.hosts_of(scn)
-    if len(hs) > 2 or hs[0] != 'a.test':
+    if len(hs) > 2 or hs[0] != 'a.test' or cs.origins_of(scn) != hs or len(scn['urls']) > 8:
         return False
     for u in scn['urls']:
         if u['kind'] not in MODEL_KINDS or u['rejected'] or u['nofollow']:
             return False
         if u['kind'] == 'redirect' and (not u.get('rto') or u.get('location') or u.get('code', 301) in (307, 308)):
             return False
-        if any(l.get('inline') for l in u['links']):
+        if any(l.get('inline') or l.get('frame') for l in u['links']):
             return False
     for h, r in scn['robots'].items():
         if r['kind'] not in ('rules', 'missing', 'error500') or r.get('extra') or r.get('agent', '*') != '*':
@@ -303,10 +315,14 @@ def strict_validate(chk, keep, batch):
     for (scn, origin, o), hdr in zip(keep, batch):
         if not strict_eligible(scn):
             continue
+        evs = hdr['ev']
+        ci = [i for i, e in enumerate(evs) if e['e'] == 'crash']
+        if ci and ci[0] > 0 and evs[ci[0] - 1]['e'] == 'commit':
+            continue    # killed between a commit and its event: the model's table lags by that transaction
         h = dict(hdr)
         by = {u['id']: u for u in scn['urls']}
         h['mkind'] = [MODEL_KINDS[by[i]['kind']] for i in range(1, h['U'] + 1)]
-        hs = cs.hosts_of(scn)
+        hs = cs.origins_of(scn)
         h['mrobots'] = [{'rules': 'rules', 'missing': 'missing', 'error500': 'error'}[
             scn['robots'].get(x, {'kind': 'missing'})['kind']] for x in hs]
         op = scn['opts']
